@@ -13,7 +13,7 @@ PROP = {
     ],
     "streams": [
         {"name": "cond", "driver": "drv_cond",
-         "quick": {"n": 600}, "thorough": {"n": 8000, "seeds": 4}},
+         "quick": {"n": 700}, "thorough": {"n": 8000, "seeds": 4}},
     ],
     "exhaustive": False,  # the conf part enumerates all graphs over three interfaces (160) on every run
     "technique": "Lean 4 proof over a line-by-line port of distinctConformances and a core calculus of condition "
@@ -40,8 +40,15 @@ PROP = {
                   "post-conditions of the same function capture different before-values, fields starting different) are also "
                   "rendered as two deployed contracts plus a script (`mprog`: interfaces in contract CA, remaining interfaces and "
                   "the composite in contract CB at the same address or, as control, at another address) and judged by the same "
-                  "models; direct oracle: a run that completes although a condition that is false in every state (`false`, "
-                  "`e < e` such as `before(e) < before(e)`, a conjunction containing one) was in scope. "
+                  "models; a further family builds the conditions from the expression forms the before-extractor rewrites "
+                  "(conditional `c ? p : q` with tests of known and of state-dependent truth value, unary minus, "
+                  "invocation `Int(e)`, cast + force `(e as Int?)!`, force cast, array literal + index), with before(..) nested "
+                  "inside, in own / inherited conditions and default implementations; these source-level forms reach the "
+                  "calculus as equivalent calculus expressions (`c ? p : q` as `(c && p) || (!c && q)`, `-e` as `0 - e`, the "
+                  "others as their operand; same value, faults and evaluation order). "
+                  "Direct oracle: a run that completes although a condition that is false in every state (`false`, "
+                  "`e < e` such as `before(e) < before(e)`, `e + k == e`, closed under `&&`, `||`, `!`, hence also a conditional "
+                  "whose taken branch is false) was in scope. "
                   "The calculus leaves out: value types other than Int, resources (result as a reference), void "
                   "functions, initializer / global-function / transaction conditions, condition messages "
                   "(interfaces declared in another contract are run as a rendering of the same calculus program).",
